@@ -119,6 +119,28 @@ def model_links(T, order):
     return res
 
 
+def slot_stress(gs):
+    """the same physics written so that the per-thread force-copy slots are used in the less common layout: every species that has
+    another integrator lists it BEFORE its velocity-Verlet integrator (the copy slot of the velocity force then starts above 0),
+    and every cross-species velocity force names its species in the reverse of the colour order"""
+    gs = dict(gs)
+    integ = list(gs['integrators'])
+    for sp in gs['species']:
+        iv = [k for k, ig in enumerate(integ) if ig[0] == 'vv' and ig[1] == sp]
+        ie = [k for k, ig in enumerate(integ) if ig[0] == 'euler' and ig[1] == sp]
+        if iv and ie and ie[0] > iv[0]:
+            integ[iv[0]], integ[ie[0]] = integ[ie[0]], integ[iv[0]]
+    gs['integrators'] = integ
+    col = {sp: i for i, sp in enumerate(gs['species'])}
+    mods = []
+    for m in gs['modules']:
+        if m[0] == 'pforce' and m[3] == 'vel' and col[m[1]] < col[m[2]]:
+            m = (m[0], m[2], m[1]) + tuple(m[3:])
+        mods.append(m)
+    gs['modules'] = mods
+    return gs
+
+
 def main(argv):
     global SERIAL, OMP
     seed, ncases = int(argv[1]), int(argv[2])
@@ -135,6 +157,9 @@ def main(argv):
     def skip(k): summ['skipped'][k] = summ['skipped'].get(k, 0) + 1
     for case in range(ncases):
         gs = cd.gen_scenario(rng, None)
+        if case % 2 == 1:
+            gs = slot_stress(gs)
+            summ['slot_stress'] = summ.get('slot_stress', 0) + 1
         ms = cd.run_model(gs)
         if isinstance(ms, tuple): skip('model ' + str(ms[1])); continue
         d = os.path.join(work, 'case%d' % case)
